@@ -86,6 +86,9 @@ MultiTag Block::createMultiTag(const std::string &name, const std::string &type,
     if (hasMultiTag(name)) {
         throw DuplicateName("createMultiTag");
     }
+    if (!hasDataArray(positions)) {
+        throw std::runtime_error("Block::createMultiTag: positions DataArray not found in this block!");
+    }
     return backend()->createMultiTag(name, type, positions);
 }
 
